@@ -324,7 +324,7 @@ func newAggrQuantileFunc(args []Expression) (AggrFunction, error) {
 	if !ok {
 		return nil, NewExecuteError(args[1].GetPos(), "quantile function second parameter type should be float")
 	}
-	if percent < 0.0 || percent > 1.0 {
+	if !(percent >= 0.0 && percent <= 1.0) {
 		return nil, NewExecuteError(args[1].GetPos(), "quantile function second parameter type should be between 0 and 1")
 	}
 	stream := quantile.NewTargeted(map[float64]float64{
